@@ -37,6 +37,7 @@ type ValSnap struct {
 
 type SignSnap struct {
 	Start, Index, JailedUntil, Missed int64
+	BitMissed                         int64 // bits set in the missed-block bitmap
 	Tomb                               bool
 	Present                            bool
 }
@@ -181,6 +182,12 @@ func (c *Chain) Snap() *Snapshot {
 			continue
 		}
 		s.Sign[i] = &SignSnap{Present: true, Start: info.StartHeight, Index: info.IndexOffset, JailedUntil: c.relTime(info.JailedUntil), Missed: info.MissedBlocksCounter, Tomb: info.Tombstoned}
+		_ = app.SlashingKeeper.IterateMissedBlockBitmap(ctx, id.Cons, func(_ int64, missed bool) bool {
+			if missed {
+				s.Sign[i].BitMissed++
+			}
+			return false
+		})
 	}
 	pend, _ := app.POAKeeper.GetPendingValidators(ctx)
 	for _, pv := range pend.Validators {
@@ -335,7 +342,7 @@ func (s *Snapshot) Lines() []string {
 	sort.Ints(sids)
 	for _, id := range sids {
 		g := s.Sign[id]
-		out = append(out, fmt.Sprintf("SIGN %d %d %d %d %d %d", id, g.Start, g.Index, g.JailedUntil, b2(g.Tomb), g.Missed))
+		out = append(out, fmt.Sprintf("SIGN %d %d %d %d %d %d %d", id, g.Start, g.Index, g.JailedUntil, b2(g.Tomb), g.Missed, g.BitMissed))
 	}
 	for _, p := range s.Pending {
 		out = append(out, fmt.Sprintf("PEND %d %d %s %s %s %d", p.Oper, p.Cons, p.Rate, p.MaxRate, p.MaxChg, len(p.Moniker)))
